@@ -150,6 +150,21 @@ async fn maintain(w: &mut World) -> R<()> {
             }
             // 2. deleted => expired (unless size-limit clean-up may apply)
             w.eval("C14:deleted-implies-expired");
+            // C15: a size-limited, (almost) full topic whose oldest-segment deletion is DISABLED loses messages in a maintenance pass although none
+            // of them is expired: that is the size clean-up acting against its configuration
+            let almost_full = max != 0 && before.size.as_bytes_u64() * 10 >= max * 9;
+            if !w.cfg.delete_oldest && almost_full {
+                let unexpired = e == 0 || {
+                    let p = w.part(id).unwrap();
+                    (old_e..f).any(|off| p.msgs[off as usize].ts.unwrap_or(0) + e > t1)
+                };
+                if unexpired {
+                    w.eval("C15:nothing-without-delete-oldest");
+                    let wv = json!({"partition": id, "deleted": format!("[{old_e}..{}]", f - 1), "topic_size_before": before.size.as_bytes_u64(), "limit": max, "delete_oldest_segments": false,
+                        "expiry_us": e});
+                    return Err(viol("C15", "nothing-without-delete-oldest", "maintenance-deleted-oldest-segment", w.witness(wv)));
+                }
+            }
             if !size_cleanup_possible {
                 if e == 0 {
                     let wv = json!({"partition": id, "deleted": format!("[{old_e}..{}]", f - 1), "expiry": "never"});
